@@ -15,6 +15,10 @@ Finger(r) ==
              \cup (IF r.alias[2] # AliasC(w) \/ r.alias[4] # AliasC(w) THEN {<<"C12", "generated-method-not-using-converter-setting", "skipCopySameType-helper", r.id>>} ELSE {})
              \cup (IF (r.alias[1] /\ ~AliasI(w, w.p1)) \/ (r.alias[3] /\ ~AliasI(w, w.p2)) \/ ((r.alias[2] \/ r.alias[4]) /\ ~AliasC(w))
                    THEN {<<"C04", "result-shares-memory-with-source", "skipCopySameType-not-in-effect", r.id>>} ELSE {}))
+  ELSE IF w.kind = "skipdecl" THEN
+       (IF r.gen # "ok" THEN {<<"C12", "valid-rejected", "skipdecl-witness", r.id>>}
+        ELSE IF ~r.compiles THEN {<<"C01", "does-not-compile", "witness", r.id>>}
+        ELSE IF r.declB # 0 THEN {<<"C06", "declared-method-bypassed", "skipCopySameType-on-caller", r.id>>} ELSE {})
   ELSE IF w.kind = "enumoff" THEN
        (IF r.gen # "ok" THEN {<<"C12", "valid-rejected", "enumoff-witness", r.id>>}
         ELSE IF ~r.compiles THEN {<<"C01", "does-not-compile", "witness", r.id>>}
